@@ -293,6 +293,8 @@ def _ratio_idiom(e, size, B, prog, func):
         return None
     bounds = [b2 for (_, a2, op, b2) in B if a2 == i and op == '<']
     dl = literal_value(den)
+    if dl is None or isinstance(dl, bool):
+        dl = const_value(den, func)
     for E in bounds:
         if den.get('kind') == 'BinaryOperator' and den.get('opcode') == '*' and literal_value(children(den)[0]) == 2 \
                 and guards.canon(children(den)[1]) == E:
@@ -368,11 +370,48 @@ def _field_value_set(prog, func, path):
     return None
 
 
+def const_value(e, func, depth=0):
+    """Value of an integer constant expression: a literal, a constexpr / const variable with such an initialiser
+    (local or namespace scope), sums / products / quotients of those.  None otherwise."""
+    x = strip(e, explicit=True)
+    v = literal_value(x)
+    if isinstance(v, (int, float)) and not isinstance(v, bool):
+        return v
+    if depth > 5:
+        return None
+    k = x.get('kind')
+    if k == 'DeclRefExpr':
+        d = func.tu.ids.get((x.get('referencedDecl') or {}).get('id'))
+        if d is not None and d.get('kind') == 'VarDecl' and (d.get('constexpr') or 'const' in (d.get('type') or '')):
+            init = [y for y in children(d) if not y['kind'].endswith('Attr') and not y['kind'].endswith('Comment')]
+            if init:
+                return const_value(init[-1], func, depth + 1)
+        return None
+    if k == 'BinaryOperator' and x.get('opcode') in ('*', '+', '-', '/'):
+        a, b = (const_value(c, func, depth + 1) for c in children(x))
+        if a is None or b is None:
+            return None
+        op = x['opcode']
+        if op == '*':
+            return a * b
+        if op == '+':
+            return a + b
+        if op == '-':
+            return a - b
+        if op == '/' and b != 0:
+            return a // b if isinstance(a, int) and isinstance(b, int) else a / b
+    if k in ('ConstantExpr', 'ParenExpr') and children(x):
+        return const_value(children(x)[0], func, depth + 1)
+    return None
+
+
 def divisor_nonzero(div, facts, func):
     """-> (proved?, reason)."""
     lit = literal_value(div)
+    if lit is None or isinstance(lit, bool):
+        lit = const_value(div, func)
     if isinstance(lit, (int, float)) and not isinstance(lit, bool):
-        return (lit != 0), 'literal divisor %s' % lit
+        return (lit != 0), 'constant divisor %s' % lit
     raw = strip(div)
     cast_from_float = guards.float_to_int_cast(div)
     p = guards.canon(div)
@@ -415,8 +454,10 @@ def division_in_range(n, facts, func):
         return True, 'unsigned division'
     a, b = children(n)
     lb = literal_value(b)
+    if lb is None or isinstance(lb, bool):
+        lb = const_value(b, func)
     if isinstance(lb, (int, float)) and not isinstance(lb, bool):
-        return (lb != -1), 'literal divisor %s' % lb
+        return (lb != -1), 'constant divisor %s' % lb
 
     def pre_cast_type(e):
         x = strip(e) if e.get('kind') == 'ParenExpr' else e
@@ -985,6 +1026,13 @@ def _uninitialised(prog, cg, chk, U5):
                 lhs_ = strip(children(x)[1])
             if lhs_ is not None and lhs_.get('kind') == 'DeclRefExpr':
                 member_bases.add(id(lhs_))
+            # std::tie(obj, cursor) = helper(..): each element of the tie is written as a whole
+            if lhs_ is not None and strip(lhs_, explicit=True).get('kind') == 'CallExpr' and \
+                    (strip(children(strip(lhs_, explicit=True))[0]).get('referencedDecl') or {}).get('name') == 'tie':
+                for a_ in children(strip(lhs_, explicit=True))[1:]:
+                    y_ = strip(a_)
+                    if y_.get('kind') == 'DeclRefExpr':
+                        member_bases.add(id(y_))
 
         def visit(n, facts, func):
             if n.get('kind') != 'DeclRefExpr' or id(n) in member_bases:
